@@ -131,6 +131,8 @@ package sipsp
 //@   ensures[C10] "uint-fin": pcl_old.state == clFIN ==> err == ErrHdrOk && *pcl == pcl_old
 
 //@ func ParseCLenVal(buf, offs, pcl) (n, err)
+//@   law[C02] RES(buf, offs)
+//@   law[C03,C02] EXT(buf)
 //@   requires bufOK(buf) && 0 <= offs && offs <= len(buf) && pcl != nil && clOK(pcl, offs)
 //@   requires[C10] clNum(pcl, buf, offs) && (pcl.state == clFIN ==> clFinNum(pcl, buf))
 //@   modifies *pcl
@@ -684,24 +686,32 @@ package sipsp
 
 //@ func ParseFromVal(buf, offs, pfrom) (n, err)
 //@   inline
+//@   law[C02] RES(buf, offs) ignoring pfrom.soffs
+//@   law[C03,C02] EXT(buf)
 //@   requires bufOK(buf) && 0 <= offs && offs <= len(buf) && pfrom != nil && fbOK(pfrom, offs, pfrom.soffs)
 //@   modifies *pfrom
 //@   ensures 0 <= n && n <= len(buf) && fbWithin(pfrom, len(buf))
 
 //@ func ParseOneContact(buf, offs, pfrom) (n, err)
 //@   inline
+//@   law[C02] RES(buf, offs) ignoring pfrom.soffs
+//@   law[C03,C02] EXT(buf)
 //@   requires bufOK(buf) && 0 <= offs && offs <= len(buf) && pfrom != nil && fbOK(pfrom, offs, pfrom.soffs)
 //@   modifies *pfrom
 //@   ensures 0 <= n && n <= len(buf) && fbWithin(pfrom, len(buf))
 
 //@ func ParseOnePAI(buf, offs, pfrom) (n, err)
 //@   inline
+//@   law[C02] RES(buf, offs) ignoring pfrom.soffs
+//@   law[C03,C02] EXT(buf)
 //@   requires bufOK(buf) && 0 <= offs && offs <= len(buf) && pfrom != nil && fbOK(pfrom, offs, pfrom.soffs)
 //@   modifies *pfrom
 //@   ensures 0 <= n && n <= len(buf) && fbWithin(pfrom, len(buf))
 
 //@ func ParseExpiresVal(buf, offs, pcl) (n, err)
 //@   inline
+//@   law[C02] RES(buf, offs)
+//@   law[C03,C02] EXT(buf)
 //@   requires bufOK(buf) && 0 <= offs && offs <= len(buf) && pcl != nil && clOK(pcl, offs)
 //@   requires[C10] clNum(pcl, buf, offs)
 //@   modifies *pcl
